@@ -668,7 +668,17 @@ def rule_select_default(run):
     run.end()
 
 
-RULES = [rule_chain, rule_pushed, rule_alias, rule_index_capture, rule_if_merge, rule_writeback, rule_with_exit, rule_std_assignable, rule_refspec, rule_all_open_blocks, rule_select_default]
+def rule_views(run):
+    from ..rules import views
+    views.run_rule(run, "F-VIEW")     # an assignment target that is a (nested) slice / element addresses exactly those bits, every time it is written
+
+
+def rule_returns_always(run):
+    from . import c10
+    c10.rule_returns_always(run)      # statements (assignments) after a compound statement are dropped iff it returns on EVERY path
+
+
+RULES = [rule_chain, rule_pushed, rule_alias, rule_index_capture, rule_if_merge, rule_writeback, rule_with_exit, rule_std_assignable, rule_refspec, rule_all_open_blocks, rule_select_default, rule_views, rule_returns_always]
 LEVEL = "other"
 EXPLANATION = (
     "Table/shape analysis of the assignment pipeline for all programs at once: the nine hand-written stages that carry "
